@@ -556,6 +556,17 @@ def delay_volume_step(interp, c, case, facets=None):
     fr, w, post = run_prologue(interp, fi, simulator, [sim, q, vol, grid])
     L = fr.locals
     K = "delay_volume"
+    if ci == 0:
+        init = [L["current_index"] == 0, L["current_time"] == t0, L["rule_step"] == 1, L["current_volume"] == V0,
+                L["next_vol_time"] == t0 + dt, L["num_timepoints"] == T]
+        init += [L["c_current_state"][i] == x0[i] for i in range(S)]
+        init += [L["c_stoich"][i, j] == U[i, j] for i in range(S) for j in range(R)]
+        init += [L["c_delay_stoich"][i, j] == D[i, j] for i in range(S) for j in range(R)]
+        init += [L["c_timepoints"][k_] == grid[k_] for k_ in range(T)]
+        report(c, s_and(*init), "[delay-volume-loop init] clock at the initial time, first volume step one dt later, volume read from the volume "
+               "object, state equal to the initial condition, immediate and delayed stoichiometry kept apart, rule flag raised", kind=K)
+        report(c, not np.shares_memory(L["c_current_state"], x0) and not np.shares_memory(L["c_timepoints"], grid),
+               "[delay-volume-loop init] works on copies of the initial state and of the time grid", kind=K)
     x = havoc_array(c, L["c_current_state"], "x", "int")
     res = havoc_array(c, L["c_results"], "res")
     vt = havoc_array(c, L["c_volume_trace"], "vt")
